@@ -3,6 +3,7 @@ import XrsVerif.Proofs.ViewshedDelExact
 import XrsVerif.Proofs.ViewshedOutput
 import XrsVerif.Proofs.ViewshedEvents
 import XrsVerif.Proofs.ViewshedDiscipline
+import XrsVerif.Proofs.ViewshedWrapper
 import XrsVerif.Gen.ViewshedFacts
 import XrsVerif.Proofs.ILViewshedOrder
 import XrsVerif.Proofs.ILViewshedRotR
@@ -79,6 +80,13 @@ import Mathlib.Tactic.Positivity
                                  over initial fill + sweep every cell is inserted, queried, deleted in this order (east ray:
                                  and re-inserted at the very end); an insertion never meets an active cell, a query or
                                  deletion always does; without the initial fill this fails.
+    * the wrapper glue (section 9, `Model/ViewshedWrapper.lean` interpreting the facts read from `_viewshed_cpu`):
+        `wrapper_source_shape`, `observer_cell_is_nearest_centre`, `resolution_is_coordinate_spacing`,
+        `wrapper_feeds_the_sweep_the_model_inputs`, `observer_outside_is_value_error`
+                                 for all coordinate arrays (ascending / descending, any spacing) the observer's cell is a cell
+                                 whose centre is nearest; on equally spaced coordinates the cell sizes passed to the kernels are
+                                 the signed coordinate steps (no attribute enters), so every key is the squared distance between
+                                 coordinates; each quantity is passed in the position of the kernel parameter that means it.
     * the generated status-tree routines (section 7, layer T3): `generated_query_decides` -- the program translated
       statement by statement from `_max_grad_in_status_struct` decides line of sight on every state whose arrays hold a
       well-linked BST without overestimates below the root; `generated_rotations_are_model_rotations`,
@@ -729,6 +737,139 @@ example : replay [] (sweepOps (fun i j => (i * j : Int)) 3 4 1 1) = true ∧
   ⟨sweep_discipline _ 3 4 1 1 (by decide), sweep_without_initial_fill_breaks _ 3 4 1 1 (by decide) (by decide)⟩
 
 end Events
+
+/-! ### 9. the wrapper glue: what `_viewshed_cpu` feeds the kernels (Model/ViewshedWrapper.lean)
+
+  (placed before sections 7 / 8 because it continues the event geometry; numbered 9 as the latest addition.)
+  `Gen.Viewshed.{ewResSrc, nsResSrc, obsRowSrc, obsColSrc, sweepParams, sweepArgs, initEventListArgs, ..}` are read from the
+  source of `_viewshed_cpu` on every run by a symbolic evaluation of its straight-line body (`harness/facts_viewshed.py:
+  wrapper_facts`); `ViewshedWrapper.wrapperInputs` INTERPRETS them.  The theorems say that, under the facts generated from
+  the current source, the sweep is fed the inputs of the line-of-sight model: cell size = coordinate spacing (never an
+  attribute), observer = the cell whose centre is nearest (on any axis direction), events sorted by (bearing, type). -/
+section Wrapper
+open XrsVerif.ViewshedWrapper XrsVerif.ViewshedEvents XrsVerif.Gen.Viewshed
+
+/-- **the shape of `_viewshed_cpu` in the source** (facts read on every run): both cell sizes are `(c[-1] - c[0]) / (n - 1)` over
+    the coordinate array of their own axis with the matching extent; the observer's row / column come from
+    `sel(method='nearest')` followed by the equality lookup on the coordinate array of their own axis, after the per-axis
+    `ValueError` range guard; the eye elevation is the raster value at that cell plus `observer_elev`, the target offset
+    `target_elev` when positive, else 0; the raster is cast to float64 in place before `_init_event_list`; the event list is
+    `np.lexsort`ed by (bearing, then type) and split into the int64 columns `[:, :3]` and the float64 columns `[:, 3:]`; and
+    each of these is passed in the position of the kernel parameter that means it (`ew_res` gets the x size, `ns_res` the y
+    size, `vp_row` the y index, ...). -/
+theorem wrapper_source_shape :
+    wrapperOk = true ∧
+    ewResSrc = .coordSpan "x" "shape[1]" ∧ nsResSrc = .coordSpan "y" "shape[0]" ∧
+    obsRowSrc = .nearestThenEq "y" ∧ obsColSrc = .nearestThenEq "x" ∧
+    rangeChecks = [("x", "ValueError"), ("y", "ValueError")] ∧
+    viewpointElevSrc = "float(raster.values[obs:row, obs:col]) + observer_elev" ∧
+    viewpointTargetSrc = "target_elev if target_elev > 0 else 0.0" ∧
+    rasterCast = "raster.values.astype(np.float64)" ∧ rasterCastBeforeInit = true ∧
+    initEventListArgs = [("event_list", "zeros:events"), ("raster", "raster.values:float64"), ("vp_row", "obs:y"),
+      ("vp_col", "obs:x"), ("data", "zeros:data"), ("visibility_grid", "filled:INVISIBLE")] ∧
+    sortedEventsSrc = "lexsort(E_TYPE_ID,E_ANG_ID)" ∧
+    eventRctsSrc = ("sorted[:, :3]", "int64") ∧ eventAesSrc = ("sorted[:, 3:]", "float64") ∧
+    sweepParams.zip sweepArgs = [("raster", "raster.values:float64"), ("vp_row", "obs:y"), ("vp_col", "obs:x"),
+      ("vp_elev", "velev"), ("vp_target", "vtarget"), ("ew_res", "res:x"), ("ns_res", "res:y"), ("event_rcts", "rcts"),
+      ("event_aes", "aes"), ("data", "zeros:data"), ("visibility_grid", "filled:INVISIBLE")] ∧
+    wiringOk = true := by
+  decide
+
+/-- **the observer's cell is the nearest centre, on every axis direction**: for ANY coordinate arrays (ascending, descending,
+    any spacing) the row / column the source's lookup yields exists, is inside the raster, and no other coordinate is
+    nearer to the observer's `y` / `x` -/
+theorem observer_cell_is_nearest_centre (xs ys : List Rat) (x y : Rat) (hx : xs ≠ []) (hy : ys ≠ []) :
+    ∃ vr vc, obsIndex obsRowSrc xs ys x y = some vr ∧ obsIndex obsColSrc xs ys x y = some vc ∧
+      ∃ (hr : vr < ys.length) (hc : vc < xs.length),
+        (∀ i (hi : i < ys.length), |ys[vr] - y| ≤ |ys[i] - y|) ∧ (∀ j (hj : j < xs.length), |xs[vc] - x| ≤ |xs[j] - x|) := by
+  obtain ⟨vr, hvr, hr, hnr⟩ := obsIndex_nearest ys y hy
+  obtain ⟨vc, hvc, hc, hnc⟩ := obsIndex_nearest xs x hx
+  have e1 : obsRowSrc = .nearestThenEq "y" := by decide
+  have e2 : obsColSrc = .nearestThenEq "x" := by decide
+  refine ⟨vr, vc, ?_, ?_, hr, hc, ?_, ?_⟩
+  · rw [e1]; simpa [obsIndex, axisCoords] using hvr
+  · rw [e2]; simpa [obsIndex, axisCoords] using hvc
+  · intro i hi; simpa [dist_eq_abs] using hnr i hi
+  · intro j hj; simpa [dist_eq_abs] using hnc j hj
+
+/-- **the cell size is the coordinate spacing**: on equally spaced coordinates (any origin, any step -- fractional, negative
+    = a descending axis) the sizes the source passes as `ew_res` / `ns_res` are the signed steps -- whatever the attributes
+    of the DataArray say -/
+theorem resolution_is_coordinate_spacing (x0 dx y0 dy : Rat) (h w : Nat) (hh : 2 ≤ h) (hw : 2 ≤ w) :
+    resOf ewResSrc (coordsAP x0 dx w) (coordsAP y0 dy h) = some dx ∧
+    resOf nsResSrc (coordsAP x0 dx w) (coordsAP y0 dy h) = some dy := by
+  have e1 : ewResSrc = .coordSpan "x" "shape[1]" := by decide
+  have e2 : nsResSrc = .coordSpan "y" "shape[0]" := by decide
+  rw [e1, e2]
+  constructor
+  · simp [resOf, axisCoords, extentOf, coordsAP_head x0 dx w (by omega), coordsAP_getLast x0 dx w (by omega),
+      coordsAP_length]
+    have := span_div x0 dx w hw
+    simpa using this
+  · simp [resOf, axisCoords, extentOf, coordsAP_head y0 dy h (by omega), coordsAP_getLast y0 dy h (by omega),
+      coordsAP_length]
+    have := span_div y0 dy h hh
+    simpa using this
+
+/-- **under the facts generated from the source the wrapper feeds the sweep the model's inputs.**  For every terrain, every
+    raster of at least 2 x 2 equally spaced coordinates (any origin; steps of any sign and size, `dx ≠ dy` allowed), every
+    observer position within the coordinate range, every observer / target height: `_viewshed_cpu` reaches the kernels with
+      * the observer's cell = a cell whose centre is nearest to `(x, y)` in each axis,
+      * `ew_res = dx`, `ns_res = dy` (signed), so that the key of every cell -- all the kernels ever use the sizes for -- is the
+        squared distance between the two cells' COORDINATES,
+      * eye elevation = terrain at that cell + `observer_elev`, target offset = `max target_elev 0`;
+    the event arrays are the `np.lexsort((type, bearing))` of what `_init_event_list` produced for that cell
+    (`wrapper_source_shape`), i.e. `sortedEvents` of `events_sorted`. -/
+theorem wrapper_feeds_the_sweep_the_model_inputs (T : Int → Int → Rat) (x0 dx y0 dy x y oe te : Rat) (h w : Nat)
+    (hh : 2 ≤ h) (hw : 2 ≤ w)
+    (hx : inRange (coordsAP x0 dx w) x = true) (hy : inRange (coordsAP y0 dy h) y = true) :
+    ∃ I : Inputs, wrapperInputs T (coordsAP x0 dx w) (coordsAP y0 dy h) x y oe te = .ok I ∧
+      I.vr < h ∧ I.vc < w ∧
+      (∀ i, i < h → |(y0 + (I.vr : Rat) * dy) - y| ≤ |(y0 + (i : Rat) * dy) - y|) ∧
+      (∀ j, j < w → |(x0 + (I.vc : Rat) * dx) - x| ≤ |(x0 + (j : Rat) * dx) - x|) ∧
+      I.ew = dx ∧ I.ns = dy ∧
+      I.velev = T I.vr I.vc + oe ∧ I.vt = max te 0 ∧
+      ∀ row col : Int, key I.ew I.ns I.vr I.vc row col =
+        ((x0 + (col : Rat) * dx) - (x0 + (I.vc : Rat) * dx)) ^ 2 + ((y0 + (row : Rat) * dy) - (y0 + (I.vr : Rat) * dy)) ^ 2 := by
+  obtain ⟨vr, vc, hvr, hvc, hr, hc, hnr, hnc⟩ := observer_cell_is_nearest_centre (coordsAP x0 dx w) (coordsAP y0 dy h) x y
+    (coordsAP_ne_nil x0 dx w (by omega)) (coordsAP_ne_nil y0 dy h (by omega))
+  obtain ⟨hew, hns⟩ := resolution_is_coordinate_spacing x0 dx y0 dy h w hh hw
+  have hwire : wiringOk = true := by decide
+  refine ⟨{ vr := vr, vc := vc, ew := dx, ns := dy, velev := T vr vc + oe, vt := if 0 < te then te else 0 }, ?_, ?_, ?_, ?_, ?_,
+    rfl, rfl, rfl, ?_, ?_⟩
+  · simp [wrapperInputs, hwire, hx, hy, hvr, hvc, hew, hns]
+  · simpa [coordsAP_length] using hr
+  · simpa [coordsAP_length] using hc
+  · intro i hi
+    have := hnr i (by simpa [coordsAP_length] using hi)
+    simpa [coordsAP_getElem] using this
+  · intro j hj
+    have := hnc j (by simpa [coordsAP_length] using hj)
+    simpa [coordsAP_getElem] using this
+  · show (if 0 < te then te else 0) = max te 0
+    split
+    · rename_i h0; exact (max_eq_left (le_of_lt h0)).symm
+    · rename_i h0; exact (max_eq_right (not_lt.mp h0)).symm
+  · intro row col
+    exact key_eq_coord_dist x0 dx y0 dy vr vc row col
+
+/-- an observer outside the coordinate range of either axis is rejected with the source's `ValueError` -/
+theorem observer_outside_is_value_error (T : Int → Int → Rat) (xs ys : List Rat) (x y oe te : Rat)
+    (hout : inRange xs x = false ∨ inRange ys y = false) :
+    wrapperInputs T xs ys x y oe te = .error "ValueError" := by
+  have hwire : wiringOk = true := by decide
+  rcases hout with h | h
+  · simp [wrapperInputs, hwire, h]
+  · by_cases hx : inRange xs x = true
+    · simp [wrapperInputs, hwire, hx, h]
+    · simp [wrapperInputs, hwire, hx]
+
+/-- non-vacuity: a 3 x 3 north-up raster (y descending 5, 4.5, 4; x ascending 10, 12, 14 -- non-square cells), the observer
+    given off-centre at (13.25, 4.125): row 2 (y = 4), column 2 (x = 14); `ew_res = 2`, `ns_res = -1/2` -/
+example : wrapperInputs (fun i j => (i + 2 * j : Int)) (coordsAP 10 2 3) (coordsAP 5 (-1/2) 3) (53/4) (33/8) 1 0 =
+    .ok { vr := 2, vc := 2, ew := 2, ns := -1/2, velev := 7, vt := 0 } := by
+  decide +kernel
+end Wrapper
 
 /-! ### 7. the status-tree routines as *generated from the source* (layer T3)
 
